@@ -188,13 +188,13 @@ def run(ctx):
             }
             if hasattr(domains[sub.name], 'sizes'):
                 per_sub[sub.name]['parts'] = domains[sub.name].sizes()
-            if per_sub[sub.name]['states'] and \
+            if per_sub[sub.name]['states'] and not res.violations and \
                     not per_sub[sub.name]['nontrivial']:
                 raise cc.HarnessError('%s: vacuous sweep' % sub.name)
 
         transitions = sum(p['transitions'] for p in per_sub.values())
         nontrivial = sum(p['nontrivial'] for p in per_sub.values())
-        if res.cases and nontrivial < 2:
+        if res.cases and nontrivial < 2 and not res.violations:
             raise cc.HarnessError('vacuous run: %d non-trivial cases'
                                   % nontrivial)
         exhaustive = bool(res.exhaustive and
